@@ -14,7 +14,7 @@
     expandp <path>                                                            → ok p,p / <error>           (paths before resolution)
     values <path>                                                             → ok hex,hex / <error>       (Nodes.values)
     groupby <path> <depth>                                                    → ok p,p / <error>           (EntryCache.group_by keys)
-    expandsafe <path>                                                         → ok <PrefixSafe> <RelativefySafe> <expandOf 3 = expandFullOf>
+    expandsafe <path>                                                         → ok <RelativefySafe> <expandOf 3 = expandFullOf>
 -/
 import Tranp.Driver.Common
 import Tranp.Model.AstPath
@@ -167,10 +167,9 @@ def step (st : St) : List String → St × String
   | ["expandsafe", p] =>
     match (pathfy st.w.root [⟨st.w.root.name, none⟩]).find? (fun pe => encodePath pe.1 == s2l p) with
     | some (q, x) =>
-      let a := decide (PrefixSafe st.w q x)
       let b := decide (RelativefySafe q x)
       let c := decide (expandOf st.w.table.canResolve 3 x q = expandFullOf st.w.table.canResolve x q)
-      (st, s!"ok {a} {b} {c}")
+      (st, s!"ok {b} {c}")
     | none => (st, "Errors.NodeNotFound")
   | ["clear"] => ({ st with insts := [] }, "ok")
   | _ => (st, "bad-op")
